@@ -1145,6 +1145,12 @@ func (e *Exec) doReturn(st *State, fr *Frame, res []Value, pos token.Pos) ([]*St
 		}
 	case 2:
 		caller.pc++
+	case 3:
+		succ, cont := e.seqReturned(st, caller)
+		if cont {
+			return []*State{st}, false
+		}
+		return succ, false
 	}
 	return []*State{st}, false
 }
